@@ -4,6 +4,7 @@
 package fx
 
 import (
+	"crypto/cipher"
 	"errors"
 	"fmt"
 	"io"
@@ -485,6 +486,20 @@ func badMutInputInPlace(in []int) []int {
 		}
 	}
 	return out
+}
+
+func okMutInputOpenFresh(a cipher.AEAD, nonce, ct []byte) ([]byte, error) {
+	return a.Open(nil, nonce, ct[4:], nil)
+}
+
+func badMutInputOpenInPlace(a cipher.AEAD, nonce, ct []byte) ([]byte, error) {
+	sealed := ct[4:]
+	return a.Open(sealed[:0], nonce, sealed, nil)
+}
+
+func badMutInputXorInPlace(st cipher.Stream, ct []byte) []byte {
+	st.XORKeyStream(ct, ct)
+	return ct
 }
 
 func badMutInputField(h *hdr) int64 {
